@@ -95,7 +95,10 @@ AceDelete(ace) ==
   /\ acl' = IF g = "" THEN [acl EXCEPT ![mode.v] = SelectSeq(@, LAMBDA e : e.ace # ace)] ELSE acl
   /\ UNCHANGED <<intf, route, mode, cmap, ifcm>>
 
-(* no ip access-list extended N *)
+(* no ip access-list extended N                                               *)
+(* IOS removes the list even while an interface or a crypto map entry still  *)
+(* names it (the reference then dangles): the error is latched AND the list  *)
+(* is gone, so that the frame check (C07) sees the damage.                   *)
 AclDeleteG(n) ==
   CASE n \notin DOMAIN acl -> "access-list does not exist"
     [] AclReferenced(n)    -> "referenced access-list deleted"
@@ -103,7 +106,7 @@ AclDeleteG(n) ==
 AclDelete(n) ==
   LET g == AclDeleteG(n) IN
   /\ err' = Latch(g)
-  /\ acl' = IF g = "" THEN Drop(acl, n) ELSE acl
+  /\ acl' = IF n \in DOMAIN acl THEN Drop(acl, n) ELSE acl
   /\ mode' = Top
   /\ UNCHANGED <<intf, route, cmap, ifcm>>
 
